@@ -27,6 +27,21 @@ var c14Fams = []string{"f1", "f2", "g"}
 
 // makeC14Gen returns the admin+data operation generator shared by C14, C08 and C17.
 func makeC14Gen(r *Run) func(d *draws, m *btModel, i int) btOp {
+	return makeC14GenMix(r, 0)
+}
+
+// c14Mixes are operation mixes (swarm): create, delete, get, list, modify, drop-prefix, drop-all,
+// mutate, read. Mix 0 is the general one; the others concentrate on one mechanism so that
+// multi-step situations (a clear after an interrupted clear, re-creation after deletion, schema
+// changes on populated tables) are reached often.
+var c14Mixes = [][]int{
+	{5, 2, 2, 2, 6, 3, 1, 8, 2},
+	{3, 3, 0, 0, 1, 2, 8, 8, 1}, // clear / delete / re-create heavy
+	{2, 1, 1, 0, 12, 2, 1, 8, 1}, // schema heavy
+}
+
+func makeC14GenMix(r *Run, mix int) func(d *draws, m *btModel, i int) btOp {
+	weights := c14Mixes[mix]
 	gen := &btGen{fams: []string{"f1", "f2"}, unknown: "g"}
 	deleted := map[string]bool{}
 	pickTable := func(d *draws, m *btModel) string {
@@ -44,7 +59,7 @@ func makeC14Gen(r *Run) func(d *draws, m *btModel, i int) btOp {
 		return c14Parents[d.n(2)] + "/tables/" + c14IDs[d.n(3)]
 	}
 	return func(d *draws, m *btModel, i int) btOp {
-		kind := d.w(5, 2, 2, 2, 6, 3, 1, 8, 2)
+		kind := d.w(weights...)
 		if len(m.Tables) == 0 && kind != 0 && d.n(4) != 3 {
 			kind = 0
 		}
